@@ -265,6 +265,7 @@ func dominatingConds(x *ssa.BasicBlock) []condFact {
 // unwrap peels value-preserving wrappers: ChangeType, ChangeInterface, MakeInterface (optional), Convert between same-kind.
 func unwrap(v ssa.Value, throughIface bool) ssa.Value {
 	for {
+		v = capturedLoad(v)
 		switch x := v.(type) {
 		case *ssa.ChangeType:
 			v = x.X
@@ -287,11 +288,11 @@ func loadedField(v ssa.Value) (*types.Var, ssa.Value) {
 	case *ssa.UnOp:
 		if x.Op == token.MUL {
 			if fa, ok := x.X.(*ssa.FieldAddr); ok {
-				return fieldOfFieldAddr(fa), fa.X
+				return fieldOfFieldAddr(fa), capturedLoad(fa.X)
 			}
 		}
 	case *ssa.Field:
-		return fieldOfField(x), x.X
+		return fieldOfField(x), capturedLoad(x.X)
 	}
 	return nil, nil
 }
@@ -513,4 +514,119 @@ func expandConds(in []condFact) []condFact {
 		}
 	}
 	return out
+}
+
+// ---- variables captured by closures ---------------------------------------------------------------------------
+//
+// go/ssa keeps a local variable that a closure captures in a heap cell (an Alloc in the enclosing function, a
+// FreeVar inside the closure) and every use becomes a load of that cell. When the variable is assigned exactly once,
+// at the top of the enclosing function (a parameter or "x := ..." that is never re-assigned), each of those loads
+// is just that value.
+
+var cellCache = map[ssa.Value]ssa.Value{}
+
+// cellValue: the single value ever stored in the cell, or nil.
+func cellValue(cell ssa.Value) ssa.Value {
+	if v, ok := cellCache[cell]; ok {
+		return v
+	}
+	cellCache[cell] = nil
+	var al *ssa.Alloc
+	switch x := cell.(type) {
+	case *ssa.Alloc:
+		al = x
+	case *ssa.FreeVar:
+		g := x.Parent()
+		parent := g.Parent()
+		if parent == nil {
+			return nil
+		}
+		idx := -1
+		for i, fv := range g.FreeVars {
+			if fv == x {
+				idx = i
+			}
+		}
+		var bound ssa.Value
+		n := 0
+		eachInstr(parent, func(in ssa.Instruction) {
+			if mc, ok := in.(*ssa.MakeClosure); ok && mc.Fn == ssa.Value(g) && idx >= 0 && idx < len(mc.Bindings) {
+				bound = mc.Bindings[idx]
+				n++
+			}
+		})
+		if n != 1 {
+			return nil
+		}
+		v := cellValue(bound)
+		cellCache[cell] = v
+		return v
+	default:
+		return nil
+	}
+	fn := al.Parent()
+	if fn == nil || len(fn.Blocks) == 0 {
+		return nil
+	}
+	var st *ssa.Store
+	for _, rr := range referrersOf(al) {
+		switch y := rr.(type) {
+		case *ssa.Store:
+			if y.Addr != ssa.Value(al) || st != nil {
+				return nil
+			}
+			st = y
+		case *ssa.UnOp, *ssa.DebugRef:
+		case *ssa.MakeClosure:
+			// the closure must not assign the variable
+			g, _ := y.Fn.(*ssa.Function)
+			if g == nil {
+				return nil
+			}
+			for i, b := range y.Bindings {
+				if b != ssa.Value(al) || i >= len(g.FreeVars) {
+					continue
+				}
+				for _, r2 := range referrersOf(g.FreeVars[i]) {
+					switch z := r2.(type) {
+					case *ssa.UnOp, *ssa.DebugRef:
+					case *ssa.MakeClosure:
+						_ = z
+						return nil // handed on to a nested closure: not followed
+					default:
+						return nil
+					}
+				}
+			}
+		default:
+			return nil
+		}
+	}
+	if st == nil || st.Block() != fn.Blocks[0] {
+		return nil
+	}
+	// every other use comes after the store
+	for _, rr := range referrersOf(al) {
+		if rr == ssa.Instruction(st) {
+			continue
+		}
+		if rr.Block() == st.Block() && instrIndex(rr) < instrIndex(st) {
+			return nil
+		}
+	}
+	cellCache[cell] = st.Val
+	return st.Val
+}
+
+// capturedLoad: if v is a load of a once-assigned captured variable, the value assigned; otherwise v.
+func capturedLoad(v ssa.Value) ssa.Value {
+	if u, ok := v.(*ssa.UnOp); ok && u.Op == token.MUL {
+		switch u.X.(type) {
+		case *ssa.Alloc, *ssa.FreeVar:
+			if cv := cellValue(u.X); cv != nil {
+				return cv
+			}
+		}
+	}
+	return v
 }
